@@ -203,7 +203,7 @@ static void stdalloc_script(vrf::Rng& rng, long round)
 // ---- composite elements: the element's constructor (user code running under the list's write mutex) inserts further
 // elements into the same list; legal with a re-entrant mutex type such as std::recursive_mutex (named in the class docs)
 struct Comp;
-using CompList = rcu_list<Comp, std::recursive_mutex, vrf::TrackAlloc<Comp>>;
+using CompList = rcu_list<Comp, vrf::recursive_mutex_t, vrf::TrackAlloc<Comp>>;
 using CompG = rcu_guarded<CompList>;
 static std::atomic<long> g_comp_live{0};
 struct Comp {
